@@ -5,7 +5,7 @@ CONSTANTS Names <- NamesMB Depth = 3 Vals <- ValsX Sep = 46 Design = "list" Base
   Routes <- RAll Cfgs <- CfgT SingleKinds <- SKBoth PrePaths <- PreC
   LoadKinds <- LoadQ TwoFiles = FALSE EnvCalls <- EnvQ ArgCalls <- ArgsQ ClearLists <- ClearQ
   MsgSets <- MSetQ MsgGets <- MGetQ NodeBases <- BasesQ FputSeps <- None
-  MaxOps = 3 MaxArr = 3 SinglesFirst = FALSE Observe = FALSE
+  MaxOps = 3 MaxArr = 3 SingleWhen = "any" QuoteSet <- AllQuotes Observe = FALSE
 CONSTRAINT Bound
 VIEW ViewF
 INVARIANTS Refines PrefixClosed
